@@ -27,11 +27,11 @@ Qed.
 
 (* ---- Content keeps what the specification looks at -------------------------------------------------------- *)
 Definition rel (s : spec) (ct : content) (b : abody) : Prop :=
-  (forall n req, In (n, req) (attr_schemata s) -> assoc_get n (ct_attrs ct) = assoc_get n (battrs b)) /\
+  (forall n req, In (n, req) (attr_schemata_raw s) -> assoc_get n (ct_attrs ct) = assoc_get n (battrs b)) /\
   (forall tn k, In (tn, k) (block_schemata s) -> blocks_of tn (ct_blocks ct) = blocks_of tn (bblocks b)).
 
 Lemma rel_incl s s' ct b :
-  incl (attr_schemata s') (attr_schemata s) -> incl (block_schemata s') (block_schemata s) ->
+  incl (attr_schemata_raw s') (attr_schemata_raw s) -> incl (block_schemata s') (block_schemata s) ->
   rel s ct b -> rel s' ct b.
 Proof. intros I1 I2 [R1 R2]. split; intros; [eapply R1|eapply R2]; eauto. Qed.
 
@@ -69,6 +69,41 @@ Proof.
     exfalso. eapply wanted_in; eauto.
 Qed.
 
+(* merging keeps every attribute name *)
+Definition has_name (n : list Z) (l : list (list Z * bool)) : Prop := exists r, In (n, r) l.
+
+Lemma merge_attr_adds n req acc : has_name n (merge_attr n req acc).
+Proof.
+  induction acc as [|[k r] rest IH]; cbn [merge_attr].
+  - exists req. left. reflexivity.
+  - destruct (str_eqb n k) eqn:Q.
+    + apply str_eqb_eq in Q. subst. eexists. left. reflexivity.
+    + destruct IH as [r' I]. exists r'. right. exact I.
+Qed.
+Lemma merge_attr_keeps k n req acc : has_name k acc -> has_name k (merge_attr n req acc).
+Proof.
+  intros [r I]. induction acc as [|[k0 r0] rest IH]; [destruct I|]. cbn [merge_attr].
+  destruct I as [E|I].
+  - inversion E; subst. destruct (str_eqb n k); eexists; left; reflexivity.
+  - destruct (str_eqb n k0); [exists r; right; exact I|].
+    destruct (IH I) as [r' I']. exists r'. right. exact I'.
+Qed.
+Lemma merge_fold_keeps k l : forall acc, has_name k acc ->
+  has_name k (fold_left (fun acc a => merge_attr (fst a) (snd a) acc) l acc).
+Proof. induction l as [|a l IH]; intros acc H; [exact H|]. cbn [fold_left]. apply IH, merge_attr_keeps, H. Qed.
+Lemma merge_fold_adds n req l : forall acc, In (n, req) l ->
+  has_name n (fold_left (fun acc a => merge_attr (fst a) (snd a) acc) l acc).
+Proof.
+  induction l as [|a l IH]; intros acc I; [destruct I|]. cbn [fold_left]. destruct I as [->|I].
+  - apply merge_fold_keeps. cbn [fst snd]. apply merge_attr_adds.
+  - apply IH, I.
+Qed.
+Lemma attr_schemata_names s n req : In (n, req) (attr_schemata_raw s) -> In n (map fst (attr_schemata s)).
+Proof.
+  intros I. destruct (merge_fold_adds n req _ [] I) as [r Ir].
+  apply in_map_iff. exists (n, r). split; [reflexivity|exact Ir].
+Qed.
+
 Lemma content_rel s b (partial : bool) :
   has_err (snd (if partial then partial_content (implied_schema s) b else full_content (implied_schema s) b)) = false ->
   rel s (fst (if partial then partial_content (implied_schema s) b else full_content (implied_schema s) b)) b.
@@ -85,7 +120,7 @@ Proof.
   destruct (pc_blocks (block_schemata s) (bblocks b)) as [blks bds] eqn:PB. cbn [fst snd ct_attrs ct_blocks] in *.
   unfold has_err in HP. apply app_flag_false in HP as [_ HP]. split.
   - intros n req I. apply (assoc_get_filter (fun k => name_mem k (map fst (attr_schemata s)))).
-    apply name_mem_in. apply in_map_iff. exists (n, req). auto.
+    apply name_mem_in. eapply attr_schemata_names; eauto.
   - intros tn k I. pose proof (pc_blocks_keep (block_schemata s) (bblocks b) tn k) as K.
     rewrite PB in K. apply K; auto.
 Qed.
@@ -165,13 +200,13 @@ Proof.
   - (* ObjectSpec *)
     cbn [sdecode denote fst snd] in *. rewrite map_map. f_equal. apply map_ext_in. intros p I. cbn [fst snd].
     f_equal. rewrite Forall_forall in H. apply H; auto.
-    + eapply rel_incl; [| |exact R]; intros x Ix; cbn [attr_schemata own_attr_schemata block_schemata own_block_schemata app];
+    + eapply rel_incl; [| |exact R]; intros x Ix; cbn [attr_schemata_raw own_attr_schemata block_schemata own_block_schemata app];
         apply in_flat_map; eauto.
     + rewrite flat_map_concat_map, map_map, <- flat_map_concat_map in G. apply (good_flat_map _ _ _ G I).
   - (* TupleSpec *)
     cbn [sdecode denote fst snd] in *. rewrite map_map. f_equal. apply map_ext_in. intros p I.
     rewrite Forall_forall in H. apply H; auto.
-    + eapply rel_incl; [| |exact R]; intros x Ix; cbn [attr_schemata own_attr_schemata block_schemata own_block_schemata app];
+    + eapply rel_incl; [| |exact R]; intros x Ix; cbn [attr_schemata_raw own_attr_schemata block_schemata own_block_schemata app];
         apply in_flat_map; eauto.
     + rewrite flat_map_concat_map, map_map, <- flat_map_concat_map in G. apply (good_flat_map _ _ _ G I).
   - (* AttrSpec *)
@@ -184,6 +219,7 @@ Proof.
     cbn [sdecode denote] in *. destruct R as [_ R]. rewrite (R tn (label_count s)) in * by (left; reflexivity).
     destruct (blocks_of tn (bblocks b)) as [|bk rest]; [reflexivity|].
     destruct (via_body _ _ _ _) as [v ds] eqn:V. cbn [fst snd] in *. apply good_app in G as [_ G].
+    f_equal.
     change v with (fst (v, ds)). rewrite <- V. apply via_body_denote; [|rewrite V; exact G].
     intros ct' R' G'. apply IHs; auto.
   - (* BlockListSpec *)
@@ -193,7 +229,7 @@ Proof.
     { destruct unk as [um|]; [exact G|]. destruct vs as [|v0 vr]; cbn [snd] in G.
       - apply good_app in G as [G _]. exact G.
       - destruct (homogenise (v0 :: vr)) as [vs' u| | |]; cbn [snd] in G.
-        + unfold or_panic in G. destruct (list_val vs'); cbn [snd] in G;
+        + cbn zeta in G. destruct (list_val vs'); cbn [snd] in G;
             repeat (apply good_app in G as [G _]); exact G.
         + repeat (apply good_app in G as [G _]); exact G.
         + repeat (apply good_app in G as [G _]); exact G.
@@ -203,7 +239,8 @@ Proof.
     rewrite <- U. destruct unk as [um|]; [reflexivity|]. rewrite <- (V eq_refl).
     destruct vs as [|v0 vr]; [reflexivity|].
     destruct (homogenise (v0 :: vr)) as [vs' u| | |]; try reflexivity.
-    unfold or_panic. destruct (list_val vs'); reflexivity.
+    cbn zeta in *. destruct (list_val vs'); [reflexivity|].
+    exfalso. cbn [snd] in G. apply good_app in G as [_ [G _]]. discriminate.
   - (* BlockTupleSpec *)
     cbn [sdecode denote] in *. destruct R as [_ R]. rewrite (R tn (label_count s)) in * by (left; reflexivity).
     destruct (seq_blocks _ _) as [[vs ds] unk] eqn:S.
@@ -219,7 +256,7 @@ Proof.
     { destruct unk as [um|]; [exact G|]. destruct vs as [|v0 vr]; cbn [snd] in G.
       - apply good_app in G as [G _]. exact G.
       - destruct (homogenise (v0 :: vr)) as [vs' u| | |]; cbn [snd] in G.
-        + unfold or_panic in G. destruct (set_val vs'); cbn [snd] in G;
+        + cbn zeta in G. destruct (set_val vs'); cbn [snd] in G;
             repeat (apply good_app in G as [G _]); exact G.
         + repeat (apply good_app in G as [G _]); exact G.
         + repeat (apply good_app in G as [G _]); exact G.
@@ -229,7 +266,8 @@ Proof.
     rewrite <- U. destruct unk as [um|]; [reflexivity|]. rewrite <- (V eq_refl).
     destruct vs as [|v0 vr]; [reflexivity|].
     destruct (homogenise (v0 :: vr)) as [vs' u| | |]; try reflexivity.
-    unfold or_panic. destruct (set_val vs'); reflexivity.
+    cbn zeta in *. destruct (set_val vs'); [reflexivity|].
+    exfalso. cbn [snd] in G. apply good_app in G as [_ [G _]]. discriminate.
   - (* BlockMapSpec *)
     cbn [sdecode denote] in *. destruct R as [_ R].
     rewrite (R tn (length ls + label_count s)%nat) in * by (left; reflexivity).
@@ -267,23 +305,25 @@ Proof.
   - (* BlockAttrsSpec *)
     cbn [sdecode denote] in *. destruct R as [_ R]. rewrite (R tn O) in * by (left; reflexivity).
     destruct (blocks_of tn (bblocks b)) as [|bk rest]; [reflexivity|].
-    unfold just_attributes. cbn beta iota zeta.
+    unfold just_attributes in *. cbn beta iota zeta in *.
     destruct (battrs (bbody bk)) as [|a0 ar]; [reflexivity|].
-    match goal with |- fst (or_panic (map_val ?kvs) _) = some_or_dyn (map_val ?kvs') =>
-      assert (E : kvs = kvs') end.
+    match goal with |- context [some_or_dyn (map_val ?kvs')] =>
+      match goal with |- context [match map_val ?kvs with _ => _ end] =>
+        assert (E : kvs = kvs') end end.
     { rewrite map_map. apply map_ext. intros a. cbn [fst snd].
       destruct (aeval c (snd a)) as [v ds] eqn:Ea. unfold attr_val. rewrite Ea. cbn [fst].
       destruct (conv v t); reflexivity. }
-    rewrite E. unfold or_panic. destruct (map_val _); reflexivity.
+    rewrite E in *. destruct (map_val _); [reflexivity|].
+    exfalso. cbn [snd] in G. apply good_app in G as [_ [G _]]. discriminate.
   - (* BlockLabelSpec *)
     cbn [sdecode denote] in *. destruct (_ || _); [|reflexivity].
     exfalso. destruct G as [_ [G _]]. discriminate.
   - (* DefaultSpec *)
     cbn [sdecode denote] in *.
     assert (R1 : rel s1 ct b).
-    { eapply rel_incl; [| |exact R]; intros x Ix; cbn [attr_schemata block_schemata]; apply in_or_app; right; apply in_or_app; auto. }
+    { eapply rel_incl; [| |exact R]; intros x Ix; cbn [attr_schemata_raw block_schemata]; apply in_or_app; right; apply in_or_app; auto. }
     assert (R2 : rel s2 ct b).
-    { eapply rel_incl; [| |exact R]; intros x Ix; cbn [attr_schemata block_schemata]; apply in_or_app; right; apply in_or_app; auto. }
+    { eapply rel_incl; [| |exact R]; intros x Ix; cbn [attr_schemata_raw block_schemata]; apply in_or_app; right; apply in_or_app; auto. }
     specialize (IHs1 c ct b lbls R1). specialize (IHs2 c ct b lbls R2).
     destruct (sdecode s1 c ct lbls) as [v ds]. cbn [fst snd] in *.
     destruct (is_null v) eqn:N.
